@@ -107,6 +107,7 @@ class Case:
     # ---- symbolic side
     def _mk_inputs(self):
         v = {}
+        timed = []
         for spec in self.inputs:
             name, kind = spec[0], spec[1]
             opts = spec[2] if len(spec) > 2 else {}
@@ -129,6 +130,10 @@ class Case:
                 # code under test decides on the *value* of times (t == 0, t < tm): the time 0 is the angle 0
                 c_, s_ = CTX.atom(opts["angle"])
                 CTX.pre.append(z3.Implies(th.n == 0, z3.And(c_.n == 1, s_.n == 0)))
+                # ... and two equal times are the same angle (cos and sin are functions of the value)
+                for th2, c2, s2 in timed:
+                    CTX.pre.append(z3.Implies(th.n == th2.n, z3.And(c_.n == c2.n, s_.n == s2.n)))
+                timed.append((th, c_, s_))
             else:
                 raise ValueError(kind)
         return v
